@@ -146,6 +146,8 @@ func (c09) Generate(r *core.Rand, tier string, idx uint64) *core.Case {
 					ap.Ref = "refs/heads/x/main" // another reference whose name ends the same way
 				case variant == 2 && lastEntry != 0:
 					ap.FromOp = 0 // another prior state (the zero hash)
+				case variant == 2 && lastEntry == 0:
+					ap.FromOp = 2 // the branch is being created (prior state zero); the statement names a non-zero prior state
 				default:
 					if prevCommit == 0 {
 						continue
